@@ -54,7 +54,7 @@ def function_views(ctx: Ctx, fref: str, interesting=None, roles: list[str | None
     paths = pe.function_paths(fn.node)
     ctx.paths_enumerated += len(paths)
     rename = role_rename(fn, roles) if roles else {}
-    return [PathView(p, rename) for p in paths]
+    return [v for v in (PathView(p, rename) for p in paths) if v.feasible()]
 
 
 def loop_iteration_views(ctx: Ctx, fref: str, loop: ast.AST, interesting=None,
@@ -72,7 +72,7 @@ def loop_iteration_views(ctx: Ctx, fref: str, loop: ast.AST, interesting=None,
     else:
         head = [Step("iter", loop, extra="next")]
     head = (pre_steps or []) + head
-    return [PathView(Path(head + p.steps, p.exit, p.exit_node), rename) for p in paths]
+    return [v for v in (PathView(Path(head + p.steps, p.exit, p.exit_node), rename) for p in paths) if v.feasible()]
 
 
 def the_loop(ctx: Ctx, fref: str, kind, pred: Callable[[ast.AST], bool], what: str) -> ast.AST:
